@@ -131,7 +131,7 @@ def source_structs(scr):
             for m in re.finditer(r"\bstruct\s+(\w+)\s*\{(.*?)\n\}", txt, re.S):
                 body = re.sub(r"//[^\n]*", "", m.group(2))
                 body = re.sub(r"#\[[^\]]*\]", "", body)
-                fields = re.findall(r"(?:pub(?:\([^)]*\))?\s+)?(\w+)\s*:", body)
+                fields = re.findall(r"^\s*(?:pub(?:\([^)]*\))?\s+)?(\w+)\s*:(?!:)", body, re.M)
                 if fields:
                     structs[m.group(1)] = fields
     return structs
